@@ -103,6 +103,8 @@ def run(ops, conds, plan=None, types=None, nresults=0, fuel=400, marker_filter=N
     while True:
         if pc >= n:
             fire("func_exit")
+            if nresults:
+                return ev, "return:%d" % (stack[-1] if stack else -1)
             return ev, "return"
         fuel -= 1
         if fuel < 0:
